@@ -404,6 +404,7 @@ func (t *tfunc) mkIf(cond string, swap bool, a, b br) br {
 				return block{"GoInt.Ctl.fall " + paren(tupleOf(names))}
 			}
 			c2 := c.derive()
+			c2.resT = fmt.Sprintf("GoInt.Ctl %s %s", paren(tupleType(typs)), paren(c.resT)) // what the branches produce
 			c2.ret = func(v string) block { return wrapRet(c.ret(v)) }
 			if c.brk != nil {
 				c2.brk = func() block { return wrapRet(c.brk()) }
@@ -441,6 +442,14 @@ func (t *tfunc) mkIf(cond string, swap bool, a, b br) br {
 				}
 			}
 			sortNames(frees)
+			if len(kb) <= 3 {
+				// too small to be worth a def of its own
+				for _, n := range frees {
+					t.use(n)
+				}
+				t.nk--
+				return append(out, ind(append(rest, kb...))...)
+			}
 			sig, args := "", ""
 			for _, n := range frees {
 				sig += fmt.Sprintf(" (%s : %s)", n, t.vtype[n])
